@@ -78,7 +78,7 @@ def fail_names(check: Check, repo, tier: str) -> bool:
     con = "src/pest/grammar/expressions/prefix.py::NegativePredicate.parse/generate"
     n, bad = check_gen(repo, "C13 FAIL-NAMES", ops.modifier_masks(repo), tier == "thorough", select=lambda desc, spec: desc.startswith("predicate"))
     check.count("fail_name_scenarios", n)
-    mine = [(cat, d) for cat, d in bad if "records a failure under a name" in cat or "record a different furthest failure" in cat or "raises" in cat]
+    mine = [(cat, d) for cat, d in bad if "records a failure under a name" in cat or "record a different furthest failure" in cat or "raise" in cat]
     check.oblige("FAIL-NAMES", con, f"on {n} model tables with predicates every failure is recorded under a rule of the grammar, the same in both siblings", True, sample=True)
     seen: set = set()
     for cat, d in mine:
